@@ -27,7 +27,7 @@ vars == <<prog, out>>
 Perms == {"public", "private"}
 VarKinds == {"var", "param"}
 ProcKinds == {"sub", "func"}
-IfaceKinds == {"generic", "absint", "operator"}
+IfaceKinds == {"generic", "absint", "operator", "genbody"}     \* genbody: a generic interface holding an interface body
 ModKinds == VarKinds \cup {"type"} \cup ProcKinds \cup IfaceKinds
 AttrsOf(k) == CASE k = "var"   -> {"none", "public", "private", "protected"}
                 [] k = "param" -> {"none", "public", "private"}
@@ -130,6 +130,12 @@ RefTypeItself ==
 
 Ref == [n \in Declared |-> IF DeclOf(n).s = "decl" THEN RefModuleEntity(n) ELSE RefTypeChild(n)]
 
+(* the specific procedure declared by an interface body inside a generic interface is an entity of the module in *)
+(* its own right: no access statement names it here, so it has the default accessibility of the scoping unit,    *)
+(* whatever the accessibility of the generic name                                                                  *)
+WithBody == {n \in Declared : DeclOf(n).s = "decl" /\ DeclOf(n).kind = "genbody"}
+RefSpecific == [n \in WithBody |-> {ScopeDefault}]
+
 ScopeDefaultAtStart == IF Mode = "submodule" THEN "private" ELSE "public"
 
 (* ---- Impl: the mechanism -------------------------------------------------- *)
@@ -175,8 +181,11 @@ Impl ==
               base  == IF n \in Accessed THEN AccOf(n) ELSE base0
           IN IF IsProt(n) /\ base = "public" THEN "protected" ELSE base]
 
+ImplSpecific == [n \in WithBody |-> ImplCaptured[n]]      \* the body is read with the block: it captures the default in force there
+
 (* ---- properties ------------------------------------------------------------ *)
-ImplRefines == Complete => \A n \in Declared : Impl[n] \in Ref[n]
+ImplRefines == Complete => /\ \A n \in Declared : Impl[n] \in Ref[n]
+                           /\ \A n \in WithBody : ImplSpecific[n] \in RefSpecific[n]
 
 (* the recorded finding explains every as-built deviation inside the bound:     *)
 (* a mismatch occurs only for an entity without own accessibility that is       *)
@@ -190,8 +199,10 @@ AccIndex(n) == CHOOSE i \in Idx(LAMBDA x : x.s = "acc" /\ x.p \in Perms /\ x.nam
 ProtectedSlotCase(n) ==     \* PROTECTED variable whose explicit PUBLIC statement is read last
   /\ IsProt(n) /\ n \in Accessed /\ AccOf(n) = "public"
   /\ \A i \in Idx(LAMBDA x : x.s = "acc" /\ x.p = "protected" /\ x.name = n) : i < AccIndex(n)
-OnlyKnownDeviations == Complete => \A n \in Declared :
-                          (Impl[n] \notin Ref[n]) => (LatePrivateCase(n) \/ ProtectedSlotCase(n))
+LateBody(n) == Mode = "module" /\ \E i \in Idx(LAMBDA x : x.s = "bare") : i > DeclIndex(n)
+OnlyKnownDeviations == Complete => /\ \A n \in Declared :
+                                        (Impl[n] \notin Ref[n]) => (LatePrivateCase(n) \/ ProtectedSlotCase(n))
+                                   /\ \A n \in WithBody : (ImplSpecific[n] \notin RefSpecific[n]) => LateBody(n)
 
 OrderIrrelevant ==    \* Ref never depends on where the bare statement stands (sanity of the rule)
   Complete => \A n \in Declared : Ref[n] # {}
@@ -202,7 +213,8 @@ Finish ==
   /\ out' = [ref |-> Ref, impl |-> Impl,
              late |-> {n \in Declared : LatePrivateCase(n)},
              pslot |-> {n \in Declared : ProtectedSlotCase(n)},
-             tref |-> IF Mode = "type" THEN RefTypeItself ELSE "none"]
+             tref |-> IF Mode = "type" THEN RefTypeItself ELSE "none",
+             sref |-> RefSpecific, simpl |-> ImplSpecific, slate |-> {n \in WithBody : LateBody(n)}]
   /\ UNCHANGED prog
 
 Next ==
